@@ -556,3 +556,78 @@ mut("c08-quiet-switch-reconcile", ["C08"], [(ST, '''	if tipHash.IsEqual(&latestB
 		return bhs, nil
 	}
 ''')], [])
+
+# ---- C13 ----
+N = "neutrino.go"
+mut("c13-addpeer-no-ban-check", ["C13"], [(N, '''	// Disconnect banned peers.
+	if s.IsBanned(sp.Addr()) {
+		sp.Disconnect()
+		return false
+	}
+''', '')], ["C13.G1"])
+mut("c13-addpeer-banned-no-disconnect", ["C13"], [(N, '''	if s.IsBanned(sp.Addr()) {
+		sp.Disconnect()
+		return false
+	}
+
+	// TODO: Check for max peers from a single IP.''', '''	if s.IsBanned(sp.Addr()) {
+		return false
+	}
+
+	// TODO: Check for max peers from a single IP.''')], ["C13.G1"])
+mut("c13-onversion-no-ban", ["C13"], [(N, '''		peerAddr := sp.Addr()
+		err := sp.server.BanPeer(peerAddr, banman.NoCompactFilters)
+		if err != nil {
+			log.Errorf("Unable to ban peer %v: %v", peerAddr, err)
+		}
+''', '')], ["C13.O1", "C13.O2"])
+mut("c13-onversion-only-witness", ["C13"], [(N, '''	if peerServices&wire.SFNodeWitness != wire.SFNodeWitness ||
+		peerServices&wire.SFNodeCF != wire.SFNodeCF {
+''', '''	if peerServices&wire.SFNodeWitness != wire.SFNodeWitness {
+''')], ["C13.O1"])
+mut("c13-status-string-key", ["C13"], [("banman/store.go", '''		k := ipNetBuf.Bytes()
+
+		status := fetchStatus(banIndex, reasonIndex, k)''', '''		k := ipNetBuf.Bytes()
+		k = []byte(ipNet.String())
+
+		status := fetchStatus(banIndex, reasonIndex, k)''')], ["C13.T1"])
+mut("c13-status-ignores-expiry", ["C13"], [("banman/store.go", '''		if !time.Now().Before(status.Expiration) {
+			return removeBannedIPNet(banIndex, reasonIndex, k)
+		}
+''', '')], ["C13.T1"])
+mut("c13-remove-one-index", ["C13"], [("banman/store.go", '''	if err := banIndex.Delete(ipNetKey); err != nil {
+		return err
+	}
+	return reasonIndex.Delete(ipNetKey)''', '''	_ = reasonIndex
+	return banIndex.Delete(ipNetKey)''')], ["C13.T1"])
+mut("c13-newaddr-no-ban-check", ["C13"], [(N, '''				if s.IsBanned(addrString) {
+					log.Debugf("Ignoring banned peer: %v", addrString)
+					continue
+				}
+''', '')], ["C13.G1"])
+mut("c13-outbound-log-only", ["C13"], [(N, '''	if s.IsBanned(peerAddr) {
+		disconnect()
+		return
+	}''', '''	if s.IsBanned(peerAddr) {
+		log.Debugf("banned peer %v", peerAddr)
+	}''')], ["C13.G1"])
+mut("c13-banpeer-no-disconnect", ["C13"], [(N, '''	defer func() {
+		// We do so in a goroutine to prevent blocking if the server is
+		// handling a query or a new/stale peer.
+		go func() {
+			if sp := s.PeerByAddr(addr); sp != nil {
+				sp.Disconnect()
+			}
+		}()
+	}()
+''', '')], ["C13.O1"])
+mut("c13-resolve-no-ban", ["C13", "C03"], [(BM, '''				err := b.cfg.BanPeer(
+					peer, banman.InvalidFilterHeaderCheckpoint,
+				)
+				if err != nil {
+					log.Errorf("Unable to ban peer %v: %v",
+						peer, err)
+				}
+				delete(checkpoints, peer)
+				break''', '''				delete(checkpoints, peer)
+				break''')], ["C13.O2", "C03.O1"])
